@@ -48,7 +48,7 @@ struct Member {
 
 fn member(text: &str) -> Option<Member> {
     let mut t = text.to_string();
-    if !t.ends_with('\n') {
+    if !(t.ends_with('\n') || t.ends_with('\r')) {
         t.push('\n');
     }
     let o = observe(&t, Backend::Str, Api::Iter).ok()?;
